@@ -29,6 +29,7 @@ RULE = (
     "'_filt_' followed by ten lower-case letters. Non-trivial = the corpus contains a one-to-many "
     "mapping, a filter, an added condition, a multi-flag regular expression and a multi-key error."
 )
+RULE += (" The corpus is converted with the stock test backend and with the verification backend (in-expressions, not-equals, correlation typing / fields / normalisation templates); it contains rule and correlation fields lists, a strict-mapping pipeline with several unmapped fields and a filter whose condition names an undefined detection.")
 ASSUMPTIONS = [
     "hash seeds, random seeds and process starts are sampled, not enumerated",
     "the two validators that fetch data over the network are left out",
@@ -48,6 +49,8 @@ PIPELINES = [
     {"name": "p2", "transformations": [{"type": "add_condition", "conditions": {"a": 1}, "negated": True},
                                        {"type": "add_condition", "conditions": {"b": "$category"}, "template": True},
                                        {"type": "field_name_prefix", "prefix": "z."}]},
+    # strict mapping: the error message lists the unmapped fields of a rule
+    {"name": "p3", "transformations": [{"type": "field_name_mapping", "mapping": {"f": "mapped_f"}}, {"type": "strict_field_mapping_failure"}]},
     # erroneous definitions: messages built from key sets
     {"name": "bad1", "transformations": [{"type": "field_name_suffix", "suffix": "_x",
                                           "rule_conditions": {"c1": {"type": "is_sigma_rule"}, "c2": {"type": "is_sigma_rule"}, "c3": {"type": "is_sigma_rule"}, "c4": {"type": "is_sigma_rule"}},
@@ -58,11 +61,15 @@ SPECIAL_DOCS = [
     {"title": "regex flags", "logsource": {"category": "test", "product": "p"}, "detection": {"sel": {"f|re|i|m|s": "a.*b", "g|re|s|i": "x"}, "condition": "sel"}},
     {"title": "placeholder", "logsource": {"category": "test"}, "detection": {"sel": {"f|expand": "%known%", "Image|endswith": "\\a.exe"}, "condition": "sel"}},
     {"title": "them", "logsource": {"category": "test", "product": "p"}, "detection": {"a": {"f": 1}, "b": {"g": 2}, "c": {"x.y": 3}, "condition": "1 of them and not all of them"}},
-    {"title": "base rule 1", "name": "base1", "id": "00000000-0000-4000-8000-000000000021", "logsource": {"category": "test", "product": "p"}, "detection": {"sel": {"f": "x", "user": "u"}, "condition": "sel"}},
-    {"title": "base rule 2", "name": "base2", "logsource": {"category": "test", "product": "p"}, "detection": {"sel": {"g": "y", "account": "u"}, "condition": "sel"}},
+    {"title": "base rule 1", "name": "base1", "id": "00000000-0000-4000-8000-000000000021", "logsource": {"category": "test", "product": "p"}, "detection": {"sel": {"f": "x", "user": "u"}, "condition": "sel"},
+     "fields": ["user", "zeta", "alpha", "f"]},
+    {"title": "base rule 2", "name": "base2", "logsource": {"category": "test", "product": "p"}, "detection": {"sel": {"g": "y", "account": "u"}, "condition": "sel"},
+     "fields": ["beta", "alpha", "account", "gamma", "delta"]},
+    {"title": "many fields", "logsource": {"category": "test"}, "detection": {"sel": {"f": 1, "unmapped_a": 1, "unmapped_b": 2, "zz_c": 3, "k_d": 4, "Q_e": 5}, "condition": "sel"}},
+    {"title": "filter undefined detection", "logsource": {"category": "test"}, "filter": {"rules": ["them_rule_alias_unused"], "fa": {"f": "noise"}, "condition": "not nothere_x"}},
     {"title": "corr temporal", "name": "corr1", "correlation": {"type": "temporal", "rules": ["base1", "base2"], "timespan": "5m", "group-by": ["usr"],
                                                                  "aliases": {"usr": {"base1": "user", "base2": "account"}}}},
-    {"title": "corr extended", "correlation": {"type": "temporal_ordered", "rules": ["base1", "base2"], "timespan": "1h", "condition": "base1 and not base2"}},
+    {"title": "corr extended", "fields": ["epsilon", "alpha"], "correlation": {"type": "temporal_ordered", "rules": ["base1", "base2"], "timespan": "1h", "condition": "base1 and not base2"}},
     {"title": "corr ext no rules list", "correlation": {"type": "temporal", "timespan": "1h", "condition": "(base2 and base1) or (base2 and them_rule) or base1 or base2"}},
     {"title": "them", "name": "them_rule_alias_unused", "logsource": {"category": "test"}, "detection": {"s": {"q": 1}, "condition": "s"}},
     {"title": "named third", "name": "them_rule", "logsource": {"category": "test", "product": "p"}, "detection": {"s": {"z": 1}, "condition": "s"}},
@@ -85,7 +92,7 @@ def run_driver(corpus_path: str, hashseed: str, rseed: int):
     env["PYTHONHASHSEED"] = hashseed
     env.pop("PYTHONDONTWRITEBYTECODE", None)
     env["PYTHONDONTWRITEBYTECODE"] = "1"
-    r = subprocess.run([sys.executable, os.path.join(VERIF_DIR, "vf", "c20_driver.py"), corpus_path, str(rseed), REPO],
+    r = subprocess.run([sys.executable, os.path.join(VERIF_DIR, "vf", "c20_driver.py"), corpus_path, str(rseed), REPO, VERIF_DIR],
                        capture_output=True, text=True, env=env, timeout=300)
     if r.returncode != 0:
         return {"crash": r.stderr[-600:]}
@@ -96,7 +103,7 @@ def check_case(case: dict) -> Outcome:
     out = Outcome()
     corpus = {"docs": case["docs"], "pipelines": case["pipelines"], "validate": case.get("validate", False)}
     txt = json.dumps(corpus)
-    out.nontrivial = all(x in txt for x in ('"filter"', "add_condition", "|re|i|m", '"m1"'))
+    out.nontrivial = all(x in txt for x in ('"filter"', "add_condition", "|re|i|m", '"m1"', "strict_field_mapping_failure", '"fields"'))
     fd, path = tempfile.mkstemp(prefix="vfc20.", suffix=".json")
     try:
         with os.fdopen(fd, "w") as f:
@@ -111,22 +118,42 @@ def check_case(case: dict) -> Outcome:
             out.fail("C20:driver-crashed", f"env {env}: {r['crash']}")
             return out
     base_env, base = results[0]
+    leak = re.compile(r"_(cond|filt)_[a-z]{10}")
+
+    def norm(x):
+        return json.loads(leak.sub(r"_\1_X", json.dumps(x)))
+
     for env, r in results[1:]:
         for sec, dg in base["digests"].items():
             if r["digests"].get(sec) != dg:
                 a, b = base["sections"][sec], r["sections"][sec]
+                what = "hash-seed" if env[0] != base_env[0] else ("random-seed" if env[1] != base_env[1] else "process-start")
+                if norm(a) == norm(b):
+                    continue  # differs only in a leaked internal identifier: reported once by the leak check below
                 # first differing element for the report
                 diff = next(((x, y) for x, y in zip(a, b) if x != y), (a[:1], b[:1])) if isinstance(a, list) and isinstance(b, list) else (a, b)
-                what = "hash-seed" if env[0] != base_env[0] else ("random-seed" if env[1] != base_env[1] else "process-start")
+                if isinstance(diff[0], dict) and isinstance(diff[1], dict):
+                    for k in diff[0]:
+                        if diff[0][k] != diff[1].get(k) and isinstance(diff[0][k], list):
+                            diff = next(((x, y) for x, y in zip(diff[0][k], diff[1][k]) if x != y), diff)
+                            break
                 out.fail(f"C20:nondeterministic:{sec}:{what}", f"section {sec} differs between env {base_env} and {env}: {json.dumps(diff)[:700]}")
                 break
-    # internal identifiers must not leak into output
-    leak = re.compile(r"_(cond|filt)_[a-z]{10}")
-    for conv in base["sections"]["conversions"]:
-        for q in conv["queries"]:
-            if isinstance(q, str) and leak.search(q):
-                out.fail("C20:internal-identifier-in-output", f"query contains internal identifier: {q[:300]}")
-                return out
+    # internal identifiers must not leak into queries, finalised output or error records
+    for sec in ("conversions", "conversions_verification_backend"):
+        for conv in base["sections"].get(sec, []):
+            for q in conv["queries"]:
+                if isinstance(q, str) and leak.search(q):
+                    out.fail("C20:internal-identifier-in-output", f"query contains internal identifier: {q[:300]}")
+                    return out
+            for rec in conv["errors"]:
+                if leak.search(rec[2]):
+                    kind = "filter-undefined-detection" if "not defined in detections" in rec[2] and "_filt_" in rec[2] else "other"
+                    out.fail(f"C20:internal-identifier-in-error-record:{kind}", f"error record of rule {rec[0]!r} contains a random internal identifier: {rec[1]}: {rec[2][:200]}")
+                    break
+    for rec in base["sections"].get("load_errors", []):
+        if leak.search(rec[1]):
+            out.fail("C20:internal-identifier-in-error-record:load", f"load error contains a random internal identifier: {rec}")
     out.label(f"envs:{len(results)}")
     return out
 
